@@ -130,15 +130,15 @@ var actionNamePool = []string{"cure", "sleep", "op", "help", "rest", "nap", "go"
 var sigNamePool = []string{"feel", "lat", "qps", "ev", "temp", "ride", "s", "~z~", "err="}
 var moodPool = []string{"blue", "red", "clear", "rain", "m1", "~"}
 var modalities = []string{"always", "never", "once", "twice", "thrice", "not always", "eventually", "eventually always", "always eventually", "at most once"}
-var titlePool = []string{"a midsummer's dream", "traffic # test", "Title: with colon", "x", "café au lait", "role model", "end", "say \"hi\" & <bye>", "50% off; now"}
-var authorPool = []string{"shakespeare", "knz <knz@example.com>", "~p~ is not expanded here", "a # b", "J. R. \"Bob\" Dobbs"}
-var attentionPool = []string{"this is fiction", "see http://x/y?z=1#frag", "do not run on prod", "attention attention"}
-var labelPool = []string{"time", "latency (ms)", "events / s", "~p~ raw", "y # label", "expects always: no"}
-var cmdPool = []string{"true", "echo a", "echo medecine >>actions.log", "tail -F actions.log", "echo $i; sleep 0.1",
+var titlePool = []string{"100%s sure", "rate %d%% of %[1]d", "a midsummer's dream", "traffic # test", "Title: with colon", "x", "café au lait", "role model", "end", "say \"hi\" & <bye>", "50% off; now"}
+var authorPool = []string{"%!s(author) 5%", "shakespeare", "knz <knz@example.com>", "~p~ is not expanded here", "a # b", "J. R. \"Bob\" Dobbs"}
+var attentionPool = []string{"load %d%% %v", "this is fiction", "see http://x/y?z=1#frag", "do not run on prod", "attention attention"}
+var labelPool = []string{"cpu %", "%s per %[1]d", "time", "latency (ms)", "events / s", "~p~ raw", "y # label", "expects always: no"}
+var cmdPool = []string{"date +%s.%N", "printf 'load %d%%\\n' 5", "echo %!s %[1]d 100%", "true", "echo a", "echo medecine >>actions.log", "tail -F actions.log", "echo $i; sleep 0.1",
 	"printf 'a\\\\n' # not a comment", "echo ~p~ stays", "rm -f *.log", "echo \"x y\"  z", "touch log; tail -F log | sed -e 's/a/b/'"}
-var multiCmdPool = []string{"echo a \n  && echo b", "for i in 1 2; do \n  echo $i\n done", "cat <<EOF\nfoo\n# bar\nEOF",
+var multiCmdPool = []string{"date +%s \n  && printf '%d%%' 3", "echo a \n  && echo b", "for i in 1 2; do \n  echo $i\n done", "cat <<EOF\nfoo\n# bar\nEOF",
 	"echo one\necho two", "echo a \\\\\n b", "if true; then \n\techo t\nfi"}
-var envPool = []string{"A=1", "patient=alice", "X=\"a b\" Y=2", "PATH=/bin:$PATH", "K='q' # c", "a=1 with b=2"}
+var envPool = []string{"FMT=%s.%N P=50%", "R=%d%% Q=%[1]d", "A=1", "patient=alice", "X=\"a b\" Y=2", "PATH=/bin:$PATH", "K='q' # c", "a=1 with b=2"}
 var multiEnvPool = []string{"A=1 \n  B=2", "X=1\nY=2"}
 var durPool = []string{"1s", "300ms", "1500ms", "2m", "1h", "100us", "1m30s", "0s", "10ms", "2.5s", "1h0m0s", "1.5s", "250us", "7ns"}
 
@@ -172,9 +172,9 @@ func (g *gen) sigRe(typ string) string {
 	var val string
 	switch typ {
 	case "event":
-		val = g.pick([]string{"(?P<event>medecine)", "(?P<event>.*)", "(?P<event>#\\w+)", "(?P<event>a|b\\\\)", "(?P<event>[^ ]+) ~p~"})
+		val = g.pick([]string{"(?P<event>\\d+%s)%%", "(?P<event>medecine)", "(?P<event>.*)", "(?P<event>#\\w+)", "(?P<event>a|b\\\\)", "(?P<event>[^ ]+) ~p~"})
 	case "scalar":
-		val = g.pick([]string{"(?P<scalar>\\d+)", "(?P<scalar>[0-9.]+)ms", "v=(?P<scalar>\\S+)  # x"})
+		val = g.pick([]string{"(?P<scalar>\\d+)%", "(?P<scalar>\\d+)", "(?P<scalar>[0-9.]+)ms", "v=(?P<scalar>\\S+)  # x"})
 	default:
 		val = g.pick([]string{"(?P<delta>\\d+)", "n:(?P<delta>[0-9]+)$"})
 	}
@@ -625,7 +625,7 @@ func (g *gen) boolAtom(m *gMember, deps *[]string) string {
 	switch g.r.Intn(8) {
 	case 0:
 		*deps = append(*deps, "mood")
-		return "mood " + g.pick([]string{"==", "!="}) + " '" + g.pick([]string{"blue", "red", "clear"}) + "'"
+		return "mood " + g.pick([]string{"==", "!="}) + " '" + g.pick([]string{"blue", "red", "clear", "%s", "50%%", "%d%[1]v"}) + "'"
 	case 1:
 		if len(refs) > 0 {
 			s := refs[g.r.Intn(len(refs))]
